@@ -1,6 +1,7 @@
 \* exhaustive: the user's library after <= 4 calls (own merges of the files read by hand and directory merges, in any order)
 CONSTANTS NSrc = 7  NLab = 8  Fissile = {1, 2, 4}  MaxLevel = 5  SrcList = {}
 CONSTANT DirScen <- ScenThorough
+CONSTANT IdOf <- IdOf8
 INIT DInit
 NEXT DNext
 CONSTRAINT Bound
